@@ -239,6 +239,12 @@ pub fn drive(out: &mut CaseOut, input: &[u8], cfg: &Cfg, widths: &[usize]) {
 fn run_case(seed: u64, idx: u64, tier: Tier, out: &mut CaseOut) {
     let mut rng = Rng::for_case(seed, "C01", idx);
     let nd = depth_cases(tier);
+    if idx < nd && std::env::var("VERIF_LEG").is_ok() {
+        // sanitizer builds have much larger stack frames: the 8 MiB budget of the
+        // nesting cases is only meaningful for the normal build
+        out.inc("depth_cases_skipped_in_leg");
+        return;
+    }
     if idx < nd {
         // deep nesting: <x>^n
         let single = match tier {
@@ -406,4 +412,43 @@ pub fn hostile_attr_doc(rng: &mut Rng) -> Vec<u8> {
         }
     }
     s.into_bytes()
+}
+
+/// Small corpus for the interpreter (Miri) leg: tiny documents of every class,
+/// every node kind, all routes, two widths each.  Single-threaded, no
+/// subprocesses, so that it can run under `cargo miri run`.
+pub fn leg_case(seed: u64, idx: u64, out: &mut CaseOut) {
+    let mut rng = Rng::for_case(seed, "C01-leg", idx);
+    let mut p = Profile::full();
+    p.max_blocks = 2;
+    p.max_words = 3;
+    p.max_depth = 2;
+    p.id_permille = 200;
+    p.class_permille = 200;
+    p.a_name = true;
+    let input: Vec<u8> = match idx % 5 {
+        0 | 1 => {
+            let doc = gen_doc(&mut rng, &p);
+            ser_varied(&doc, &mut rng)
+        }
+        2 => {
+            let doc = gen_doc(&mut rng, &p);
+            let base = ser_canonical(&doc);
+            gen::mutate(&mut rng, &base, 3, &gen::HOSTILE_DICT)
+        }
+        3 => hostile_attr_doc(&mut rng),
+        _ => {
+            let doc = gen_doc(&mut rng, &p);
+            let mut v = format!("<style>{}</style>", super::cssgen::soup_or_valid(&mut rng)).into_bytes();
+            v.extend_from_slice(&ser_canonical(&doc));
+            v
+        }
+    };
+    let mut cfg = c01_cfg(&mut rng);
+    if idx % 5 == 4 {
+        cfg.use_doc_css = true;
+        cfg.css.push((Origin::User, ".c1 { color: #123456; } p > em { display: none }".into()));
+    }
+    let widths = [rng.range(1, 12), rng.range(20, 60)];
+    drive(out, &input, &cfg, &widths);
 }
